@@ -154,6 +154,8 @@ def _check(case, allow_known=False):
     if any(r.kind == "declined" for r in exp):
         labels.add("partly_declined")
     if kind == "alias":
+        # the distribution floors are about the generated programs: alias cases only report their own classes
+        labels = {l for l in labels if l.startswith(("rn_", "ref_", "kind_", "partly_"))}
         nt = len(set((rename or {}).values())) > 1
     else:
         nt = any(l in labels for l in NT_LABELS)
